@@ -354,6 +354,19 @@ def _inject_job(job):
             placed[(kernel[li].line_number, pi + 1)] = v
     if wide:  # a value >= 10 (or >= 100) in every column widens the column: more digits for the others
         kernel[nlines].port_pressure = [float(wide) for _ in range(nports)]
+    if idx % 2 == 1:
+        # latencies of quarter cycles (shipped models have whole and half cycles only): the critical-path and
+        # LCD cells and their totals are then no multiples of 0.1, so a cell or total that is rounded on the
+        # way is visibly not the value of the machine-readable output.  The graph is rebuilt by the real code.
+        for li, ins in enumerate(kernel):
+            if ins.latency is None:
+                continue
+            q = 0.25 * (1 + (li + idx) % 3)
+            if ins.latency_wo_load is not None:
+                ins.latency_wo_load = ins.latency_wo_load + q
+            ins.latency = ins.latency + q
+        dg = type(dg)(kernel, dg.parser, dg.model, dg.arch_sem, -1, False)
+        meta["quarter_latencies"] = True
     r2 = {"ok": True, "timed_out": bool(dg.timed_out)}
     try:
         r2["text"] = fe.full_analysis(kernel, dg, ignore_unknown=False, arch_warning=False, length_warning=False,
